@@ -66,7 +66,33 @@ var ruleAddenda7 = map[string]string{
 	"C19": "Sequences also under the asymmetric agreements.",
 }
 
+// eighth batch
+var ruleAddenda8 = map[string]string{
+	"C01": "Part bystander (unrelated handshake with the opposite parameters between messages; one process per case).",
+	"C02": "Handshakes with a valued parameter in front of the no_context_takeover flag.",
+	"C03": "Part after-failure (A fails mid compressed message and is closed; B and C read two interleaved compressed messages each, warm and cold pools).",
+	"C04": "Part write-fails (write on a dead transport before the buffered messages are read).",
+	"C05": "WSt (first chunk below the threshold); s.fanout.",
+	"C06": "cf/both-stalled (one Close frame when both ends close); s.slow (slow handshake within the documented bounds returns nil).",
+	"C07": "Op closeRead; part after-failure.",
+	"C08": "Limits MaxInt64, MaxInt64-1; 4 MiB message then 10-byte messages under a 1 KiB limit.",
+	"C09": "State stale-writer.",
+	"C10": "Op RF (discarded remainder of a BFINAL-terminated frame stalls).",
+	"C11": "s.conc: 2 and 3 overlapping handshakes (schedx, plus race units); punctuation look-alike sub-protocols.",
+	"C12": "Part shared-options; malformed origins naming a foreign host (403).",
+	"C13": "Accept value with padding bits set; multi-valued and raw-key caller headers.",
+	"C14": "Exchanges also from cold pools; part after-failure.",
+	"C15": "Parts limit (control frames under small read limits) and wrap (65600 pings while one is outstanding).",
+	"C16": "wconc-cross.",
+	"C17": "Part arch386 (GOARCH=386 worker).",
+	"C18": "s.clear (deadline removed while the call is blocked); s.fanout.",
+	"C19": "s.writers (overlapping wsjson.Write); s.probe (first message of back-references only).",
+}
+
 func init() {
+	for id, add := range ruleAddenda8 {
+		ruleAddenda7[id] += " " + add
+	}
 	for id, add := range ruleAddenda7 {
 		ruleAddenda6[id] += " " + add
 	}
